@@ -417,3 +417,12 @@ RULES = [
     ("C15.R9", "T11/T4", "IIN2 rejections are recognised (bit positions and getters, shared with C13.R1)", r9),
     ("C15.R10", "T5/T2", "the record of the last unsolicited fragment is touched only where a fragment is accepted (restart handling leaves it alone; shared with C17.R2)", r10),
 ]
+
+
+def r11(ctx):
+    """'the answer to its question': request and expected-fragment sequence numbers advance through Sequence::increment / next - the
+    4-bit successor (shared code, also C04.R12)."""
+    app_sequence_wrap(ctx)
+
+
+RULES.append(("C15.R11", "T11/T2", "the application sequence number is a 4-bit counter wrapping 15 -> 0 (shared with C04.R12)", r11))
